@@ -20,6 +20,7 @@ def analysis(repo, ts='yes', **kw):
     k = (repo, ts, tuple(sorted(kw.items())))
     if k not in _AN:
         _AN[k] = Analysis(repo, ts=ts, **kw)
+    _AN[k].touched = set()          # which containers the rules of the check that starts now look at (Analysis.relevant)
     return _AN[k]
 
 
@@ -58,7 +59,7 @@ def c06(tier, repo):
     res = Result('C06', 'proof')
     an = lock_analysis_context(repo, res)
     locks.analyse(an, res, None)
-    res.incomplete += an.incomplete
+    res.incomplete += [x for x in an.incomplete if an.relevant(x)]
     annotate(res, an)
     res.explanation = ('Reduction (DESIGN.md 6.C06): every public method of every thread_safe::yes container performs all accesses '
                        'to mutable container state inside one critical section of this->m_lock (L1), the section is never re-taken '
@@ -76,7 +77,7 @@ def c07(tier, repo):
     res = Result('C07', 'proof')
     an = lock_analysis_context(repo, res)
     locks.analyse(an, None, res)
-    res.incomplete += an.incomplete
+    res.incomplete += [x for x in an.incomplete if an.relevant(x)]
     annotate(res, an)
     res.explanation = ('Lockset analysis (DESIGN.md 6.C07): for every access to a data member (or memory reached through it) on every '
                        'path of every public method, either the access is inside the critical section of this->m_lock or no '
@@ -95,7 +96,7 @@ def c09(tier, repo):
     res = Result('C09', 'proof')
     an = analysis(repo)
     rules_seq.rule_c09(an, res)
-    res.incomplete += an.incomplete
+    res.incomplete += [x for x in an.incomplete if an.relevant(x)]
     annotate(res, an)
     res.explanation = ('Finite decision table (DESIGN.md 6.C09): the allow enumerators and the insert_allowed/update_allowed bodies are '
                        'constant-evaluated from the AST for all three modes; every path of every insert / insert_range body (helpers '
@@ -112,7 +113,7 @@ def c19(tier, repo):
     res = Result('C19', 'proof')
     an = analysis(repo)
     rules_seq.rule_noninterference(an, res)
-    res.incomplete += an.incomplete
+    res.incomplete += [x for x in an.incomplete if an.relevant(x)]
     annotate(res, an)
     res.explanation = ('Write-freedom (DESIGN.md 6.C19): every path whose valuation is a peek hit, a miss, a rejected insert or an '
                        'absent-key erase has an empty abstract effect list on container state (so the state is bit-identical and every '
@@ -129,7 +130,7 @@ def c02(tier, repo):
     an = analysis(repo)
     rules_seq.rule_c02(an, res)
     rules_seq.rule_c02_c03_shared_full_test(an, res, 'C02')
-    res.incomplete += an.incomplete
+    res.incomplete += [x for x in an.incomplete if an.relevant(x)]
     annotate(res, an)
     res.explanation = ('Structural clauses of C02 (DESIGN.md 6.C02), decided on every path and loop iteration of every entry point: '
                        'R-BALANCE (counter, index, free/used partition and every auxiliary structure change by the same amount), '
@@ -151,7 +152,7 @@ def c03(tier, repo):
     an = analysis(repo)
     rules_seq.rule_c03(an, res)
     rules_seq.rule_c02_c03_shared_full_test(an, res, 'C03')
-    res.incomplete += an.incomplete
+    res.incomplete += [x for x in an.incomplete if an.relevant(x)]
     annotate(res, an)
     res.explanation = ('R-REMOVE-LICENSE (DESIGN.md 6.C03): every index removal on every path of every entry point is licensed by its '
                        'path valuation: erase(k) of the found entry; lookup of an expired entry (tlru/utlru); clean/purge guarded by the '
@@ -173,7 +174,7 @@ def _simple(pid, fn, explanation, assumptions, floors):
         res = Result(pid, LEVEL.get(pid, 'other'))
         an = analysis(repo)
         fn(an, res)
-        res.incomplete += an.incomplete
+        res.incomplete += [x for x in an.incomplete if an.relevant(x)]
         annotate(res, an)
         res.explanation = explanation
         res.assumptions += assumptions
@@ -378,7 +379,7 @@ def merge_instance(pid, res, repo, kw):
     for v in sub.violations:
         v.message += ' [instantiation %s]' % ','.join('%s=%s' % kv for kv in sorted(kw.items()))
         res.violate(v)
-    res.incomplete += [x for x in an.incomplete if x not in res.incomplete]
+    res.incomplete += [x for x in an.incomplete if x not in res.incomplete and an.relevant(x)]
     return 1
 
 
@@ -419,6 +420,27 @@ def suppress_on_unknown(res):
     res.violations[:] = keep
 
 
+
+def _selftest_one(args):
+    """one seeded patch applied to a scratch copy of the tree, judged by the quick tier of one check (runs in a worker process)"""
+    import shutil
+    import subprocess
+    import tempfile
+    pid, repo, sid, patch = args
+    tmp = tempfile.mkdtemp(prefix='capcheck-selftest-')
+    try:
+        shutil.copytree(os.path.join(repo, 'inc'), os.path.join(tmp, 'inc'))
+        p = subprocess.run(['patch', '-s', '-p1', '-i', patch], cwd=tmp, capture_output=True, text=True)
+        if p.returncode != 0:
+            return sid, 'na'
+        try:
+            sub = run(pid, 'quick', tmp)
+        except Exception as e:
+            return sid, 'engine stopped: %s' % str(e)[:120]
+        return sid, ('caught' if sub.violations else 'missed')
+    finally:
+        shutil.rmtree(tmp, ignore_errors=True)
+
 def thorough_extras(pid, res, repo):
     """thorough tier: (1) the same rules on the other instantiations the build uses (thread_safe::no, other key/value types,
     map-typed ranges) - parametricity premise P-PARAM says verdicts must agree; (2) self-test: every seeded breaking change that this
@@ -451,7 +473,7 @@ def thorough_extras(pid, res, repo):
             for v in sub.violations:
                 v.message += ' [instantiation %s]' % ','.join('%s=%s' % kv for kv in sorted(kw.items()))
                 res.violate(v)
-            res.incomplete += [x for x in an.incomplete if x not in res.incomplete]
+            res.incomplete += [x for x in an.incomplete if x not in res.incomplete and an.relevant(x)]
     res.counts['alternative_instantiations'] = n_inst
     # ---- self-test against the seeded corpus
     exp_path = os.path.join(os.path.dirname(os.path.dirname(os.path.abspath(__file__))), 'seeded', 'EXPECTED.json')
@@ -459,28 +481,20 @@ def thorough_extras(pid, res, repo):
     if os.path.exists(exp_path):
         exp = json.load(open(exp_path))
         seeded_dir = os.path.dirname(exp_path)
-        for sid, props in sorted(exp.items()):
-            if pid not in props:
-                continue
-            patch = os.path.join(seeded_dir, sid, 'patch.diff')
-            tmp = tempfile.mkdtemp(prefix='capcheck-selftest-')
-            try:
-                shutil.copytree(os.path.join(repo, 'inc'), os.path.join(tmp, 'inc'))
-                p = subprocess.run(['patch', '-s', '-p1', '-i', patch], cwd=tmp, capture_output=True, text=True)
-                if p.returncode != 0:
-                    res.counts['selftest_patch_not_applicable'] = res.counts.get('selftest_patch_not_applicable', 0) + 1
-                    continue
-                _AN.pop((tmp, 'yes', ()), None)
-                sub = run(pid, 'quick', tmp)
-                if sub.violations:
-                    caught += 1
-                else:
-                    missed += 1
-                    res.incomplete.append('SELF-TEST: seeded change %s is no longer reported by %s (the rule went blind)' % (sid, pid))
-            finally:
-                for k in [k for k in _AN if k[0] == tmp]:
-                    _AN.pop(k, None)
-                shutil.rmtree(tmp, ignore_errors=True)
+        todo = [(pid, repo, sid, os.path.join(seeded_dir, sid, 'patch.diff')) for sid, props in sorted(exp.items()) if pid in props]
+        from concurrent.futures import ProcessPoolExecutor
+        workers = max(1, min(16, (os.cpu_count() or 2), len(todo)))
+        if todo:
+            with ProcessPoolExecutor(max_workers=workers) as ex:
+                for sid, verdict in ex.map(_selftest_one, todo, chunksize=1):
+                    if verdict == 'na':
+                        res.counts['selftest_patch_not_applicable'] = res.counts.get('selftest_patch_not_applicable', 0) + 1
+                    elif verdict == 'caught':
+                        caught += 1
+                    else:
+                        missed += 1
+                        res.incomplete.append('SELF-TEST: seeded change %s is no longer reported by %s (the rule went blind)%s'
+                                              % (sid, pid, '' if verdict == 'missed' else ' [%s]' % verdict))
     # ---- positive controls for rules that match nothing on a healthy tree (controls/<name>/{patch.diff, expect.json})
     ctl_dir = os.path.join(os.path.dirname(os.path.dirname(os.path.abspath(__file__))), 'controls')
     ctl_ok = 0
